@@ -11,6 +11,17 @@ CHECKS = {
    technique="CBMC contract/assertion proofs over the full input domain of mechanically sliced C (loop-free harnesses: complete)"),
 }
 
+CHECKS["C11"] = dict(
+   text="Unbounded contract proofs (loop invariants + ghost indices, any len <= 2^31-1 including 0, any pos <= len) that every on-demand scanner leaf (skip_space_safe, GetNextToken<3|4>, SkipString, GetNonSpaceBits, GetStringBits, SkipLiteral/EqBytes4; avx2 and sse instantiations) reads only inside [data, data+len), keeps pos monotone and <= len on success; SkipScanner::SkipOne and GetArrayElem are proved against the callee contracts (slice start < pos' <= len). Driver GetOnDemand and SkipContainer: see level_note.",
+   design_ref="DESIGN.md section 5 (C11)",
+   note="Trusted: CBMC, lowering rules, intrinsic/SIMD-wrapper models (sample-validated). Stated bound len <= 2^31-1 (2^31-65 for container skipping). Undecided residue is listed in the evidence file under 'undecided'.",
+   technique="CBMC function contracts + loop contracts (DFCC) on mechanically sliced C; callers checked against callee contracts")
+CHECKS["C14"] = dict(
+   text="Complete proofs (all s < 32, all byte contents, all page offsets of both operands in whole-page objects, production and sanitizer preprocessor paths) that in_page_32 / is_eq_lt_32 / cross-page fallback / cmp_lt_32 never read past the page objects and return exactly byte equality / the sign of memcmp; unbounded loop-contract proofs for InlinedMemcmpEq and InlinedMemcmp on exact-size heap blocks (any s >= 32); dispatch for s < 32 proved against the kernels as uninterpreted functions; sse forwarders equal libc memcmp. Sign of InlinedMemcmp for s >= 32 is a bounded stand-in (s <= 159).",
+   design_ref="DESIGN.md section 5 (C14)",
+   note="Trusted: CBMC, lowering, intrinsic models, libc memcmp, page model (objects are whole 4096-byte pages; pointer low bits == offset low bits). movemask+1 signed wrap is an observation. findMemberImpl/Less callers and std::multimap are not under contract (DOM classes).",
+   technique="CBMC contract proofs: complete loop-free harnesses over symbolic page offsets + DFCC loop contracts with ghost indices")
+
 NOT_APPLICABLE = {
  "C01": "driver parseImpl is a goto state machine over C++ containers and a templated SAX handler; no contract lowering achieved yet (leaf recognisers are proved under C04/C05/C11)",
  "C02": "same driver as C01 plus DOM classes/destructors; allocator-kind and leak clauses need the C++ object model CBMC's front end cannot parse",
